@@ -106,4 +106,20 @@ CHECKS = {
              "shards": {"quick": 1, "thorough": 16}, "timeout": {"quick": 600, "thorough": 7200}},
         ],
     },
+    "C12": {
+        "rule": ("receive: headers from an independent encoder (v1 TCP4/TCP6/UNKNOWN; v2 PROXY TCP4/TCP6/UDP4/UDP6, LOCAL with and without an address block, with 0-3 TLVs), "
+                 "payloads 0..20 KiB, header split at a generated point / at the boundary / byte-wise / coalesced with the payload, allow lists (none, matching, non-matching, "
+                 "overlapping+duplicate, other family) with peers v4/v6, with and without a prefetching proxy_protocol matcher; plus every split point of 8 header kinds. "
+                 "Observed: bytes, addresses and placeholders seen by a recorder behind the handler and remote_ip/local_ip matchers in a following subroute. "
+                 "send: proxy handler v1/v2 to a loopback upstream, client v4/v6, with a received header first (composition), parsed by an independent parser. "
+                 "Non-trivial = header split across reads or coalesced with payload, TLVs, allow-list miss, composition or prefetched bytes; distinct = distinct case."),
+        "assumptions": ["v2 headers with TLVs are rejected by the PROXY protocol library in use: then the connection must fail closed (no handler runs); acceptance is not demanded",
+                        "v1 UNKNOWN declares no addresses; what later matchers see is not judged (the library reports an empty TCP address)",
+                        "v1 cannot carry UDP addresses: composition UDP->v1 is not judged"],
+        "min_classes": {"quick": {"C12/outcome/accepted": 1500, "C12/outcome/passed-through": 300, "C12/outcome/rejected": 50, "C12/composition": 100, "C12/every-split-cases": 500}},
+        "runs": [
+            {"name": "recv+send", "pkg": "./c12", "run": ".", "rapid_checks": {"quick": 3000, "thorough": 200000},
+             "shards": {"quick": 1, "thorough": 16}, "timeout": {"quick": 600, "thorough": 7200}},
+        ],
+    },
 }
